@@ -8,7 +8,7 @@ from harness.common import run_driver, lean_obligations
 from harness.translate import translator_obligations
 
 MODULE = 'Ndt.Props.C11'
-THEOREMS = ['Ndt.complex_misuse_raises', 'Ndt.multicomplex_high_order_raises', 'Ndt.too_few_steps_raises', 'Ndt.no_steps_raises',
+THEOREMS = ['Ndt.emitStepsVec_zero_component', 'Ndt.complex_misuse_raises', 'Ndt.multicomplex_high_order_raises', 'Ndt.too_few_steps_raises', 'Ndt.no_steps_raises',
             'Ndt.wrong_size_raises', 'Ndt.valid_call_returns', 'Ndt.directionaldiff_mismatch_raises',
             'Ndt.residue_order_guard', 'Ndt.residue_default_order', 'Ndt.unknown_path_raises']
 CLASSES = ['Derivative', 'Gradient', 'Jacobian', 'Hessdiag', 'Hessian']
@@ -83,7 +83,7 @@ def run(ctx):
     from numdifftools.limits import Limit, Residue, CStepGenerator
     from numdifftools.step_generators import MinStepGenerator
     from numdifftools.finite_difference import LogRule
-    translator_obligations(ctx, ['guard.', 'LogRule._multicomplex_middle_name', 'LogRule.num_terms', 'LogHessianRule'])
+    translator_obligations(ctx, ['guard.', 'basic_generators', 'LogRule._multicomplex_middle_name', 'LogRule.num_terms', 'LogHessianRule'])
     lean_obligations(ctx, MODULE, THEOREMS)
     rng = ctx.rng
 
